@@ -498,9 +498,50 @@ pub fn run(tier: &str) -> i32 {
             }
         }
     }
+    // a restart is a new operating-system process: what decides where a key lives (partition of a key) must not depend on
+    // anything that differs between two processes. Process 1 writes and snapshots, process 2 loads, changes a few keys
+    // and takes an incremental snapshot, process 3 loads: it must hold what process 2 held at its snapshot.
+    let mut process_chain_cases = 0u64;
+    {
+        let rounds: Vec<(u64, usize)> = if thorough { vec![(3, 30), (10, 40), (10, 120), (3, 200), (10, 200), (7, 64)] } else { vec![(3, 30), (10, 60)] };
+        for (ci, (parts, nkeys)) in rounds.iter().enumerate() {
+            let cfg = Config { strategy: "s3_patition", partitions: *parts, fault: None, put_fault_shape: (500, 1) };
+            let bucket = format!("chain{}", ci);
+            let dbs = json!([["one", "none"], ["two", "newer"]]);
+            let mut ops: Vec<serde_json::Value> = (0..*nkeys).map(|i| json!(["set", 0, format!("key-{}", i), (i + ci) % 6])).collect();
+            ops.push(json!(["snap", [0], false]));
+            ops.push(json!(["declutter"]));
+            let d1 = fresh_dir("c18-chain");
+            let first = run_child(&json!({"dbs": dbs, "ops": ops}), &cfg, &stub, &bucket, &d1);
+            let _ = std::fs::remove_dir_all(&d1);
+            let d2 = fresh_dir("c18-chain");
+            let second = run_child(&json!({"dbs": dbs, "ops": [["image"], ["set", 0, "key-1", 3], ["set", 0, "key-5", 1], ["set", 0, "brand-new", 2], ["snap", [0], false], ["declutter"]]}), &cfg, &stub, &bucket, &d2);
+            let _ = std::fs::remove_dir_all(&d2);
+            let d3 = fresh_dir("c18-chain");
+            let third = run_child(&json!({"dbs": dbs, "ops": [["image"]]}), &cfg, &stub, &bucket, &d3);
+            let _ = std::fs::remove_dir_all(&d3);
+            let (Some(first), Some(second), Some(third)) = (first, second, third) else {
+                v.inconclusive("process-chain run produced no result");
+                continue;
+            };
+            let ev_of = |doc: &serde_json::Value, name: &str| doc["events"].as_array().unwrap().iter().find(|e| e["event"] == name).map(|e| e["image"].clone());
+            let (Some(snap1), Some(load2), Some(snap2), Some(load3)) = (ev_of(&first, "snapshot-completed"), ev_of(&second, "restart"), ev_of(&second, "snapshot-completed"), ev_of(&third, "restart")) else {
+                v.inconclusive("process-chain run: an event is missing");
+                continue;
+            };
+            process_chain_cases += 1;
+            for (stage, want, got) in [("first-restart", &snap1, &load2), ("restart-after-an-incremental-snapshot-by-another-process", &snap2, &load3)] {
+                for (p, d) in diff(want, got).into_iter().filter(|x| x.0 != "database-id-or-strategy-differs") {
+                    v.report(json!({"check": "s3", "strategy": "s3_patition", "problem": p, "context": format!("chain-of-processes/{}", stage)}),
+                        json!({"partitions": parts, "keys": nkeys, "detail": d, "snapshotted": want, "restored": got}));
+                }
+            }
+        }
+    }
     let s = st.into_inner().unwrap();
-    ev.evaluations = s.runs + 2 * repartition_cases;
+    ev.evaluations = s.runs + 2 * repartition_cases + 3 * process_chain_cases;
     ev.set("restarts_with_another_number_of_partitions", json!(repartition_cases));
+    ev.set("chains_of_three_processes_snapshot_load_incremental_snapshot_load", json!(process_chain_cases));
     ev.distinct_nontrivial = s.shapes.len() as u64;
     ev.rule = format!("{} generated histories (set / set-safe / remove / increment / snapshot incremental|reclaim of one or both databases / declutter / restart over 2 databases x 3 keys x 6 value classes; every 5th history uses the prefix-related names a / ab), each run in child processes under disk (reference) and two of 10 configurations (s3; s3_patition with 1, 3, 10 partitions; 2nd PUT fails once / always; 1st GET fails once) against tools/s3stub.py with a fresh bucket per run; every restart of the S3 run is compared with the same restart of the disk run; + {} restarts of a fresh process with another number of partitions (10->3, 3->10, 10->1, ...) against the bucket a snapshot of 12-39 keys was written to, compared with the image at the snapshot; distinct_nontrivial = distinct (configuration, history features, outcome class) shapes", n_hist, repartition_cases);
     ev.samples = s.samples.clone();
